@@ -83,7 +83,8 @@ func (s *Scheduler) Clear() {
 }
 
 func uniqueJobKey(ctx vivid.ActorContext, reference string) *quartz.JobKey {
-	jobKey := ctx.Ref().GetPath() + ":" + reference
+	// 分隔符使用 '#'：它不可能出现在 Actor 路径中（':' 可以），因此 (路径, reference) 到键的映射是单射，不同 Actor 的任务不会相互覆盖
+	jobKey := ctx.Ref().GetPath() + "#" + reference
 	return quartz.NewJobKey(jobKey)
 }
 
